@@ -23,6 +23,151 @@ ASSUMPTIONS = ["CPython ast parses /repo's source as the interpreter would"]
 MIN_INSTANCES = {"R-17a": 8, "R-17b": 8, "R-17c": 5}
 
 
+class Chain:
+    """a register chain in an elaborate() body, whichever way it is written"""
+    def __init__(self):
+        self.count = None      # text of the iterable that fixes the number of stages, e.g. range(self._stages)
+        self.ctor = None       # the Signal(...) call creating one stage
+        self.src = None        # text of what the first stage samples
+        self.domain = None     # text of the domain the stages are registered in
+        self.out = None        # text of the output driver expression, resolved to "LAST" when it is the last stage
+        self.idiom = None
+        self.lineno = 0
+
+
+def _dom_of(aug):
+    """m.d[D] += ... / m.d.D += ...  -> text of D (quoted name for the attribute form)"""
+    t = aug.target
+    if isinstance(t, ast.Subscript) and unparse(t.value).endswith(".d"):
+        return unparse(t.slice)
+    if isinstance(t, ast.Attribute) and unparse(t.value).endswith(".d"):
+        return repr(t.attr)
+    return None
+
+
+def find_chain(fn, out_target="self.o"):
+    """recognise (a) flops = [Signal(..) for _ in ITER]; for i, o in zip((SRC, *flops), flops): m.d[D] += o.eq(i)
+    and (b) prev = SRC; for X in flops | for _ in ITER: X = Signal(..) ; m.d[D] += X.eq(prev); prev = X
+    (after helper expansion); the output is flops[-1] or the final `prev`"""
+    from ..engine.inline import propagate_locals
+    ch = Chain()
+    body = fn.body
+    binds = {}
+    for st in ast.walk(fn):
+        if isinstance(st, ast.Assign) and len(st.targets) == 1 and isinstance(st.targets[0], ast.Name):
+            binds.setdefault(st.targets[0].id, []).append(st.value)
+    lists = {k: v[0] for k, v in binds.items() if len(v) == 1 and isinstance(v[0], ast.ListComp) and len(v[0].generators) == 1
+             and isinstance(v[0].elt, ast.Call) and (dotted(v[0].elt.func) or "").split(".")[0] == "Signal"}
+
+    def resolve_list(name):
+        seen = 0
+        while name not in lists and name in binds and len(binds[name]) == 1 and isinstance(binds[name][0], ast.Name) and seen < 5:
+            name = binds[name][0].id
+            seen += 1
+        return name if name in lists else None
+    last_names = set()
+    for lp in ast.walk(fn):
+        if not isinstance(lp, ast.For):
+            continue
+        # (a) zip idiom
+        m = pmatch("zip((_V_SRC, *_V_F), _V_G)", lp.iter)
+        if m is not None and isinstance(m["_V_F"], ast.Name) and unparse(m["_V_F"]) == unparse(m["_V_G"]) and \
+                isinstance(lp.target, ast.Tuple) and len(lp.target.elts) == 2 and len(lp.body) == 1 and isinstance(lp.body[0], ast.AugAssign):
+            ln = resolve_list(m["_V_F"].id)
+            i_, o_ = unparse(lp.target.elts[0]), unparse(lp.target.elts[1])
+            if ln is not None and pmatch(f"{o_}.eq({i_})", lp.body[0].value) is not None:
+                ch.idiom, ch.count, ch.ctor = "zip", unparse(lists[ln].generators[0].iter), lists[ln].elt
+                ch.src, ch.domain, ch.lineno = unparse(m["_V_SRC"]), _dom_of(lp.body[0]), lp.lineno
+                last_names = {f"{m['_V_F'].id}[-1]", f"{ln}[-1]"}
+                break
+        # (b) running-previous idiom
+        augs = [b for b in lp.body if isinstance(b, ast.AugAssign)]
+        if len(augs) == 1:
+            mm = pmatch("_V_X.eq(_V_P)", augs[0].value)
+            if mm is not None and isinstance(mm["_V_P"], ast.Name) and isinstance(mm["_V_X"], ast.Name):
+                prev, x = mm["_V_P"].id, mm["_V_X"].id
+                idx = lp.body.index(augs[0])
+                upd = [b for b in lp.body[idx + 1:] if isinstance(b, ast.Assign) and unparse(b.targets[0]) == prev and unparse(b.value) == x]
+                if not upd:
+                    continue
+                ctor, count = None, None
+                if isinstance(lp.target, ast.Name) and lp.target.id == x and isinstance(lp.iter, ast.Name):
+                    ln = resolve_list(lp.iter.id)
+                    if ln is not None:
+                        ctor, count = lists[ln].elt, unparse(lists[ln].generators[0].iter)
+                        last_names |= {f"{lp.iter.id}[-1]", f"{ln}[-1]"}
+                else:
+                    mk = [b for b in lp.body[:idx] if isinstance(b, ast.Assign) and unparse(b.targets[0]) == x and
+                          isinstance(b.value, ast.Call) and (dotted(b.value.func) or "").split(".")[0] == "Signal"]
+                    if len(mk) == 1:
+                        ctor, count = mk[0].value, unparse(lp.iter)
+                if ctor is None:
+                    continue
+                # the initial value of `prev` before the loop
+                init = [v for v in binds.get(prev, []) if unparse(v) != x]
+                if len(init) != 1:
+                    continue
+                ch.idiom, ch.count, ch.ctor, ch.src, ch.domain, ch.lineno = "prev", count, ctor, unparse(init[0]), _dom_of(augs[0]), lp.lineno
+                last_names |= {prev}
+                break
+    if ch.idiom is None:
+        return None
+    # the output driver
+    for st in ast.walk(fn):
+        for c in ast.walk(st) if isinstance(st, (ast.AugAssign,)) else ():
+            m = pmatch(f"{out_target}.eq(_V_E)", c)
+            if m is not None:
+                e = unparse(m["_V_E"])
+                seen = 0
+                while e not in last_names and e in binds and len(binds[e]) == 1 and seen < 5:
+                    e = unparse(binds[e][0])
+                    seen += 1
+                ch.out = ("LAST" if e in last_names else e, _dom_of(st))
+    return ch
+
+
+def _stored(model, ref, exclude=()):
+    """for every path of a constructor that does not raise: {attribute: canonical text of the stored value}, plus the
+    calls made; module-level helpers are expanded except `exclude`"""
+    from ..engine import refsem
+    rel, qual = ref.split("::")
+    table = refsem.inline_table(model, rel, qual.rsplit(".", 1)[0], exclude=tuple(exclude) + (qual.rsplit(".", 1)[-1],))
+    fn, paths = refsem.method_paths(model, ref, inline=table)
+    out = []
+    for p in paths:
+        if p.how == "raise":
+            continue
+        st, calls = {}, []
+        for e in p.effects:
+            if isinstance(e, ast.Assign):
+                for t in e.targets:
+                    if isinstance(t, ast.Attribute) and unparse(t.value) == "self":
+                        st[t.attr] = unparse(e.value)
+            elif isinstance(e, ast.Call):
+                calls.append(unparse(e))
+            elif isinstance(e, (ast.For, ast.While)):
+                calls.append("LOOP:" + unparse(e))
+        out.append((p, st, calls))
+    return fn, out
+
+
+def _width_one_checked(fn, names):
+    """`if len(X) != 1: raise ValueError` for every X in names — written out, or as a loop over a tuple naming them"""
+    t = unparse(fn)
+    if all(f"if len({n}) != 1:" in t for n in names):
+        return True
+    for lp in ast.walk(fn):
+        if isinstance(lp, ast.For) and isinstance(lp.iter, (ast.Tuple, ast.List)):
+            elems = {x.id for e in lp.iter.elts for x in ast.walk(e) if isinstance(x, ast.Name)}
+            tvars = {x.id for x in ast.walk(lp.target) if isinstance(x, ast.Name)}
+            for st in lp.body:
+                if isinstance(st, ast.If) and any(isinstance(r, ast.Raise) and "ValueError" in unparse(r) for r in st.body):
+                    m = pmatch("len(_V_X) != 1", st.test)
+                    if m is not None and unparse(m["_V_X"]) in tvars and set(names) <= elems:
+                        return True
+    return False
+
+
 def _flops(em):
     v = em.aliases.get("flops")
     need(isinstance(v, ast.ListComp) and len(v.generators) == 1, "flops is not a single list comprehension")
@@ -33,35 +178,44 @@ def r17a(model, ctx):
     R = "R-17a"
     fn = model.func_expanded(f"{CDC}::FFSynchronizer.elaborate", depth=3)
     em = ElabModel(fn)
-    fl = _flops(em)
-    ok = unparse(fl.generators[0].iter) == "range(self._stages)" and not fl.generators[0].ifs
+    fv = model.func_view(f"{CDC}::FFSynchronizer.elaborate", depth=3)
+    ch = find_chain(fv)
+    need(ch is not None, "FFSynchronizer.elaborate: register chain not recognised (neither the zip((i, *flops), flops) nor the "
+                         "running-previous idiom)")
+    ok = ch.count == "range(self._stages)"
     ctx.check(ok, R, "FFSynchronizer:stage-count", "one register per element of range(self._stages)",
-              f"FFSynchronizer must build exactly `stages` registers (range(self._stages)); found {unparse(fl.generators[0].iter)}",
-              f"{CDC}:{fl.lineno}")
-    kw = {k.arg: unparse(k.value) for k in fl.elt.keywords} if isinstance(fl.elt, ast.Call) else {}
-    ok = isinstance(fl.elt, ast.Call) and dotted(fl.elt.func) == "Signal" and unparse(fl.elt.args[0]) == "self.i.shape()" and \
+              f"FFSynchronizer must build exactly `stages` registers (range(self._stages)); found {ch.count}",
+              f"{CDC}:{ch.lineno}")
+    kw = {k.arg: unparse(k.value) for k in ch.ctor.keywords}
+    ok = dotted(ch.ctor.func) == "Signal" and ch.ctor.args and unparse(ch.ctor.args[0]) == "self.i.shape()" and \
         kw.get("init") == "self._init" and kw.get("reset_less") == "self._reset_less"
     ctx.check(ok, R, "FFSynchronizer:stage-signal", "Signal(i.shape(), init=init, reset_less=reset_less)",
-              f"each stage must have the input's shape, the given init and reset_less flag; found {unparse(fl.elt)}", f"{CDC}:{fl.lineno}")
-    loops = [s for s in fn.body if isinstance(s, ast.For)]
-    ok = len(loops) == 1 and unparse(loops[0].iter) == "zip((self.i, *flops), flops)" and unparse(loops[0].target) in ("(i, o)", "i, o")
-    ctx.check(ok, R, "FFSynchronizer:chain", "zip((i, *flops), flops): stage k samples stage k-1, stage 0 samples the input",
-              f"the register chain must be zip((self.i, *flops), flops); found {unparse(loops[0].iter) if loops else '-'}", f"{CDC}:{fn.lineno}")
-    ch = [a for a in em.assigns if a.target_text == "o"]
-    ok = len(ch) == 1 and ch[0].domain == "self._o_domain" and unparse(ch[0].rhs) == "i" and not ch[0].guards
-    ctx.check(ok, R, "FFSynchronizer:chain-domain", "every stage is clocked by the output domain",
-              f"every stage must be registered in m.d[self._o_domain] as o.eq(i); found {ch}", f"{CDC}:{fn.lineno}")
-    out = [a for a in em.assigns if a.target_text == "self.o"]
-    ok = len(out) == 1 and out[0].domain == "comb" and unparse(out[0].rhs) == "flops[-1]"
-    ctx.check(ok, R, "FFSynchronizer:output", "o = last stage (combinational)",
-              f"the output must be the last stage, combinationally; found {out}", f"{CDC}:{fn.lineno}")
-    ok = len(em.assigns) == 2
-    ctx.check(ok, R, "FFSynchronizer:no-other-logic", "no other assignments", f"FFSynchronizer has unexpected assignments: {em.assigns}",
+              f"each stage must have the input's shape, the given init and reset_less flag; found {unparse(ch.ctor)}", f"{CDC}:{ch.lineno}")
+    ctx.check(ch.src == "self.i", R, "FFSynchronizer:chain", "stage k samples stage k-1, stage 0 samples the input",
+              f"the register chain must start from self.i and feed each stage from the previous one; the first stage samples {ch.src}",
               f"{CDC}:{fn.lineno}")
-    fi = model.func(f"{CDC}::FFSynchronizer.__init__")
-    t = unparse(fi)
-    ok = "_check_stages(stages)" in t and "self._stages = stages" in t and "self._o_domain = o_domain" in t and \
-        "if init is None:\n        init = 0" in t and "self._init = init" in t and "self._reset_less = reset_less" in t
+    ctx.check(ch.domain == "self._o_domain", R, "FFSynchronizer:chain-domain", "every stage is clocked by the output domain",
+              f"every stage must be registered in m.d[self._o_domain]; found {ch.domain}", f"{CDC}:{fn.lineno}")
+    ctx.check(ch.out == ("LAST", "'comb'"), R, "FFSynchronizer:output", "o = last stage (combinational)",
+              f"the output must be the last stage, combinationally; found {ch.out}", f"{CDC}:{fn.lineno}")
+    # no other logic: every m.d assignment of the body is a chain stage or the output driver
+    augs = [x for x in ast.walk(fv) if isinstance(x, ast.AugAssign) and _dom_of(x) is not None]
+    ok = len(augs) == 2
+    ctx.check(ok, R, "FFSynchronizer:no-other-logic", "no other assignments",
+              f"FFSynchronizer has unexpected assignments: {[unparse(x) for x in augs]}", f"{CDC}:{fn.lineno}")
+    fi, stored = _stored(model, f"{CDC}::FFSynchronizer.__init__", exclude=("_check_stages", "_check_max_input_delay"))
+    need(stored, "FFSynchronizer.__init__: no completing path")
+    ok = True
+    for p, st, calls in stored:
+        ok = ok and "_check_stages(stages)" in calls and st.get("_stages") == "stages" and st.get("_o_domain") == "o_domain" and \
+            st.get("_reset_less") == "reset_less"
+        # init: the given init, else the (deprecated) reset, else 0
+        none_init = any(unparse(c) == "init is None" and pol for c, pol in p.conds) or \
+            any(unparse(c) == "init is not None" and not pol for c, pol in p.conds)
+        has_reset = any(unparse(c) == "reset is not None" and pol for c, pol in p.conds) or \
+            any(unparse(c) == "reset is None" and not pol for c, pol in p.conds)
+        want = "reset" if has_reset else ("0" if none_init else "init")
+        ok = ok and st.get("_init") == want
     ctx.check(ok, R, "FFSynchronizer.__init__", "parameters stored unchanged; stages validated", "FFSynchronizer.__init__ must "
               "validate stages and store o_domain, stages, init (default 0), reset_less unchanged", f"{CDC}:{fi.lineno}")
     fc = model.func(f"{CDC}::_check_stages")
@@ -78,22 +232,42 @@ def r17b(model, ctx):
     ok = "m.domains += ClockDomain('async_ff', async_reset=True)" in t
     ctx.check(ok, R, "AsyncFFSynchronizer:domain", "private domain async_ff with async_reset=True",
               "AsyncFFSynchronizer must use a private ClockDomain('async_ff', async_reset=True)", f"{CDC}:{fn.lineno}")
-    fl = _flops(em)
-    ok = unparse(fl.generators[0].iter) == "range(self._stages)" and isinstance(fl.elt, ast.Call) and \
-        {k.arg: unparse(k.value) for k in fl.elt.keywords}.get("init") == "1" and unparse(fl.elt.args[0]) == "1"
+    fv = model.func_view(f"{CDC}::AsyncFFSynchronizer.elaborate", depth=3)
+    ch = find_chain(fv)
+    need(ch is not None, "AsyncFFSynchronizer.elaborate: register chain not recognised")
+    ok = ch.count == "range(self._stages)" and {k.arg: unparse(k.value) for k in ch.ctor.keywords}.get("init") == "1" and \
+        ch.ctor.args and unparse(ch.ctor.args[0]) == "1"
     ctx.check(ok, R, "AsyncFFSynchronizer:stages", "`stages` one-bit registers initialised to 1",
               f"the chain must consist of range(self._stages) one-bit registers with init=1 (asserted until released); found "
-              f"{unparse(fl)}", f"{CDC}:{fl.lineno}")
-    loops = [s for s in fn.body if isinstance(s, ast.For)]
-    ok = len(loops) == 1 and unparse(loops[0].iter) == "zip((0, *flops), flops)"
-    ctx.check(ok, R, "AsyncFFSynchronizer:chain", "zip((0, *flops), flops): zeros are shifted in",
-              f"the chain must shift in constant 0: zip((0, *flops), flops); found {unparse(loops[0].iter) if loops else '-'}", f"{CDC}:{fn.lineno}")
-    ch = [a for a in em.assigns if a.target_text == "o"]
-    ok = len(ch) == 1 and ch[0].domain == "async_ff" and unparse(ch[0].rhs) == "i"
-    ctx.check(ok, R, "AsyncFFSynchronizer:chain-domain", "stages clocked in async_ff", f"stages must be registered in m.d.async_ff; found {ch}",
-              f"{CDC}:{fn.lineno}")
+              f"{unparse(ch.ctor)} over {ch.count}", f"{CDC}:{ch.lineno}")
+    ctx.check(ch.src == "0", R, "AsyncFFSynchronizer:chain", "zeros are shifted in",
+              f"the chain must shift in constant 0; the first stage samples {ch.src}", f"{CDC}:{fn.lineno}")
+    ctx.check(ch.domain == "'async_ff'", R, "AsyncFFSynchronizer:chain-domain", "stages clocked in async_ff",
+              f"stages must be registered in m.d.async_ff; found {ch.domain}", f"{CDC}:{fn.lineno}")
     rs = [a for a in em.assigns if a.target_text == "ResetSignal('async_ff')"]
-    got = {(unparse(a.rhs), tuple((unparse(c), p) for c, p in a.pyconds if "self._edge" in unparse(c))) for a in rs}
+    got = set()
+    for a in rs:
+        conds = tuple((unparse(c), p) for c, p in a.pyconds if "self._edge" in unparse(c))
+        rhs = a.rhs
+        if isinstance(rhs, ast.Name) and isinstance(em.aliases.get(rhs.id), ast.AST):
+            rhs = em.aliases[rhs.id]
+        if isinstance(rhs, ast.IfExp) and "self._edge" in unparse(rhs.test):
+            got.add((unparse(rhs.body), conds + ((unparse(rhs.test), True),)))
+            got.add((unparse(rhs.orelse), conds + ((unparse(rhs.test), False),)))
+        else:
+            got.add((unparse(rhs), conds))
+
+    def norm(item):
+        rhs, conds = item
+        out = []
+        for c, p in conds:
+            if c == "self._edge == 'neg'":
+                c, p = "self._edge == 'pos'", not p
+            if c == "self._edge != 'pos'":
+                c, p = "self._edge == 'pos'", not p
+            out.append((c, p))
+        return (rhs, tuple(out))
+    got = {norm(x) for x in got}
     want = {("self.i", (("self._edge == 'pos'", True),)), ("~self.i", (("self._edge == 'pos'", False),))}
     ctx.check(got == want and all(a.domain == "comb" for a in rs), R, "AsyncFFSynchronizer:reset",
               "private reset = i ('pos') / ~i ('neg'), combinationally",
@@ -102,16 +276,18 @@ def r17b(model, ctx):
     ok = len(ck) == 1 and ck[0].domain == "comb" and unparse(ck[0].rhs) == "ClockSignal(self._o_domain)"
     ctx.check(ok, R, "AsyncFFSynchronizer:clock", "private clock = output domain's clock",
               f"the private domain's clock must be ClockSignal(self._o_domain); found {ck}", f"{CDC}:{fn.lineno}")
-    out = [a for a in em.assigns if a.target_text == "self.o"]
-    ok = len(out) == 1 and out[0].domain == "comb" and unparse(out[0].rhs) == "flops[-1]"
-    ctx.check(ok, R, "AsyncFFSynchronizer:output", "o = last stage", f"the output must be the last stage; found {out}", f"{CDC}:{fn.lineno}")
+    ctx.check(ch.out == ("LAST", "'comb'"), R, "AsyncFFSynchronizer:output", "o = last stage",
+              f"the output must be the last stage; found {ch.out}", f"{CDC}:{fn.lineno}")
     ok = any(s.name is None and unparse(s.call) == "RequirePosedge(self._o_domain)" for s in em.submodules)
     ctx.check(ok, R, "AsyncFFSynchronizer:RequirePosedge", "requires a positive-edge output domain",
               "AsyncFFSynchronizer must add RequirePosedge(self._o_domain) (its private domain is positive-edge)", f"{CDC}:{fn.lineno}")
-    fi = model.func(f"{CDC}::AsyncFFSynchronizer.__init__")
+    fi, stored = _stored(model, f"{CDC}::AsyncFFSynchronizer.__init__", exclude=("_check_stages", "_check_max_input_delay"))
+    need(stored, "AsyncFFSynchronizer.__init__: no completing path")
     t = unparse(fi)
-    ok = "_check_stages(stages)" in t and "if len(i) != 1" in t and "if len(o) != 1" in t and "async_edge not in ('pos', 'neg')" in t and \
-        "self._edge = async_edge" in t and "self._stages = stages" in t and "self._o_domain = o_domain" in t
+    ok = _width_one_checked(fi, ("i", "o")) and ("async_edge not in ('pos', 'neg')" in t or "async_edge not in ['pos', 'neg']" in t)
+    for p, st, calls in stored:
+        ok = ok and "_check_stages(stages)" in calls and st.get("_edge") == "async_edge" and st.get("_stages") == "stages" and \
+            st.get("_o_domain") == "o_domain"
     ctx.check(ok, R, "AsyncFFSynchronizer.__init__", "1-bit i/o, edge in {pos,neg}, stages validated, parameters stored",
               "AsyncFFSynchronizer.__init__ must validate widths, edge and stages and store them unchanged", f"{CDC}:{fi.lineno}")
     fr = model.func_expanded(f"{CDC}::ResetSynchronizer.elaborate", depth=3)
